@@ -229,6 +229,7 @@ static void do_action(VM& vm, const std::string& a, value& out)
     out.set("t0", t0);
     out.set("t1", vclock::now_ns());
     if (vm.mon) out.set("n", vm.mon->instr.load() - i0);
+    if (vclock::sleeps()) { out.set("vsleeps", vclock::sleeps()); out.set("vslept_ns", vclock::slept_ns()); }
 }
 
 static value listing_of(const instruction_set& set, int depth)
